@@ -127,6 +127,10 @@ def build_model(repo: Repo) -> tuple[M.Interp, set[str], str]:
                         psi = M.subst_atom(psi, a_, TRUE)
                     elif a_ == "HAS" or "EXCL[" in a_ or (it.taint_of_atom(a_) & {"EXT"} and a_.startswith("ISNONE[")):
                         psi = M.subst_atom(psi, a_, FALSE)
+                for a_ in sorted(atoms_of(psi)):
+                    if M.valid(psi, atom(a_)) and M.valid(atom(a_), psi):
+                        psi = atom(a_)  # e.g. (P and INSCAN) or P
+                        break
                 if psi not in (TRUE, FALSE) and usable_definition(it, psi) and (definition is None or not (atoms_of(definition) & atoms_of(k))):
                     definition = psi
                     fns = sorted({it.predicates[a_[: a_.index("[")]].qualname for a_ in atoms_of(psi) if a_.startswith("P<") and a_[: a_.index("[")] in it.predicates})
@@ -233,7 +237,9 @@ def tri(it: M.Interp, premise: Formula, conclusion: Formula) -> tuple[str, "dict
     for a in sorted(names_):
         if a.startswith(NAME_RELATIONAL) and M.mentions(a, E) and M.valid(M.subst_atom(premise, a, int_atom), M.subst_atom(conclusion, a, int_atom), cons):
             return "undecided", {a: True}
-    soft = sorted(a for a in names_ if not is_canonical(a) and not about_entry_options(it, a) and (a.startswith(NAME_RELATIONAL) or not (M.mentions(a, E) or any(M.mentions(a, f"x{i}") for i in range(6)))))
+    # (facts about a whole collection - `∃EXCL[•1]`: some name of it matches - are related to the facts about one element in
+    # ways the model does not know: soft)
+    soft = sorted(a for a in names_ if ("•" in a) or (not is_canonical(a) and not about_entry_options(it, a) and (a.startswith(NAME_RELATIONAL) or not (M.mentions(a, E) or any(M.mentions(a, f"x{i}") for i in range(6))))))
     hard = sorted(names_ - set(soft))
     for env_h in M.assignments(hard):
         # a counter-example must not depend on facts the model cannot judge: whatever their values, the premise holds and the
@@ -503,24 +509,48 @@ def internal_closure(repo: Repo, internal: set[str]) -> list[FuncInfo]:
     return list(reachable_funcs(repo, roots, byname=False))
 
 
-def _split_components(f: FuncInfo, e: ast.expr, depth: int = 0) -> "str | None":
-    """Text of the string whose '.'-components `e` is (through single-assignment locals, list()/tuple()), else None."""
-    if depth > 4:
+def _split_components(repo: Repo, f: FuncInfo, e: ast.expr, depth: int = 0) -> "str | None":
+    """Text of the string whose '.'-components `e` is (through single-assignment locals, list()/tuple(), fields set in the
+    class, helpers with a single return; the separator may be a constant that folds to '.'), else None."""
+    from core.fold import fold
+
+    if depth > 6:
         return None
-    if isinstance(e, ast.Call) and isinstance(e.func, ast.Attribute) and e.func.attr in ("split", "rsplit") and e.args and isinstance(e.args[0], ast.Constant) and e.args[0].value == ".":
+    if isinstance(e, ast.Call) and isinstance(e.func, ast.Attribute) and e.func.attr in ("split", "rsplit") and e.args and fold(repo, f.module, e.args[0], f) == ".":
         return norm(e.func.value)
     if isinstance(e, ast.Call) and isinstance(e.func, ast.Name) and e.func.id in ("list", "tuple") and len(e.args) == 1:
-        return _split_components(f, e.args[0], depth + 1)
+        return _split_components(repo, f, e.args[0], depth + 1)
+    if isinstance(e, ast.Call):
+        try:
+            cs, how = types_of(repo).callees(f, e, byname_fallback=False)
+        except Exception:  # noqa: BLE001
+            cs, how = [], ""
+        if len(cs) == 1 and how == "repo" and not isinstance(cs[0].node, ast.Lambda):
+            rets = [r for r in own_nodes(cs[0].node) if isinstance(r, ast.Return) and r.value is not None]
+            if len(rets) == 1:
+                inner = _split_components(repo, cs[0], rets[0].value, depth + 1)
+                if inner is not None:
+                    return f"{cs[0].name}({', '.join(norm(a, 30) for a in e.args)})"
+    if isinstance(e, ast.Attribute) and isinstance(e.value, ast.Name) and e.value.id == "self" and f.cls is not None:
+        vals = []
+        for m in f.cls.methods.values():
+            for n in own_nodes(m.node):
+                if isinstance(n, (ast.Assign, ast.AnnAssign)) and n.value is not None:
+                    for t in (n.targets if isinstance(n, ast.Assign) else [n.target]):
+                        if isinstance(t, ast.Attribute) and isinstance(t.value, ast.Name) and t.value.id == "self" and t.attr == e.attr:
+                            vals.append(_split_components(repo, m, n.value, depth + 1))
+        if vals and all(v is not None for v in vals):
+            return f"self.{e.attr}"
     if isinstance(e, ast.Name) and not isinstance(f.node, ast.Lambda):
         assigns = [n for n in own_nodes(f.node) if isinstance(n, (ast.Assign, ast.AnnAssign)) and n.value is not None and any(isinstance(t, ast.Name) and t.id == e.id for t in (n.targets if isinstance(n, ast.Assign) else [n.target]))]
         if len(assigns) == 1:
-            return _split_components(f, assigns[0].value, depth + 1)
+            return _split_components(repo, f, assigns[0].value, depth + 1)
         # a, b = x.split("."), y.split(".")
         for n in own_nodes(f.node):
             if isinstance(n, ast.Assign) and len(n.targets) == 1 and isinstance(n.targets[0], ast.Tuple) and isinstance(n.value, ast.Tuple) and len(n.value.elts) == len(n.targets[0].elts):
                 for t, v in zip(n.targets[0].elts, n.value.elts):
                     if isinstance(t, ast.Name) and t.id == e.id:
-                        return _split_components(f, v, depth + 1)
+                        return _split_components(repo, f, v, depth + 1)
     return None
 
 
@@ -533,7 +563,7 @@ def zip_truncations(repo: Repo, funcs: list[FuncInfo]) -> list[tuple[FuncInfo, a
         for c in calls_in(f.node):
             if not (isinstance(c.func, ast.Name) and c.func.id == "zip" and len(c.args) == 2):
                 continue
-            comps = [_split_components(f, a) for a in c.args]
+            comps = [_split_components(repo, f, a) for a in c.args]
             if None in comps:
                 continue
             strict = any(k.arg == "strict" and isinstance(k.value, ast.Constant) and k.value.value is True for k in c.keywords)
@@ -542,7 +572,7 @@ def zip_truncations(repo: Repo, funcs: list[FuncInfo]) -> list[tuple[FuncInfo, a
             for n in own_nodes(f.node):
                 if isinstance(n, ast.Compare):
                     lens = [x for x in ast.walk(n) if isinstance(x, ast.Call) and isinstance(x.func, ast.Name) and x.func.id == "len" and x.args]
-                    if len({norm(x.args[0]) for x in lens} & texts) == 2 or len({_split_components(f, x.args[0]) for x in lens} & set(comps)) == 2:
+                    if len({norm(x.args[0]) for x in lens} & texts) == 2 or len({_split_components(repo, f, x.args[0]) for x in lens} & set(comps)) == 2:
                         guarded = True
             out.append((f, c, guarded, f"zip({norm(c.args[0], 40)}, {norm(c.args[1], 40)})"))
     return out
@@ -647,7 +677,7 @@ def run_r2(repo: Repo, res: Result, it: M.Interp, internal: set[str], how: str) 
         return
     fns = internal_closure(repo, internal)
     res.observe(f"C10.R2 internal test found {how}; closure: {sorted(f.qualname for f in fns)}")
-    zs = zip_truncations(repo, fns)
+    zs = zip_truncations(repo, [f for f in repo.all_functions() if f.fq in reach_fq or f in fns])
     for f, c, guarded, text in zs:
         res.add(
             "C10.R2",
@@ -658,7 +688,7 @@ def run_r2(repo: Repo, res: Result, it: M.Interp, internal: set[str], how: str) 
             kind="structural",
         )
     res.add("C10.R2", "fixture::zip comparison of component lists", True, zip_fixture_selfcheck(), nontrivial=False)
-    for f in [g for g in fns if g.fq in internal]:
+    for f in [g for g in fns if g.fq in internal][:1] or [it.entry]:
         res.add("C10.R2", f"{f.relpath}::{f.qualname}::complete prefixes", all(g for _f, _c, g, _t in zs), f"the internal test ({how}) contains no comparison of component lists truncated by zip ({len(zs)} zip comparison(s) of component lists inspected)", where(f, f.node), nontrivial=bool(zs), kind="structural")
 
 
